@@ -14,25 +14,37 @@ from ..loader import AnalysisError, Program, dotted, norm, parent
 from . import common as C
 
 ID = 'C14'
-TECHNIQUE = ('origin/effect analysis (flow-sensitive may-alias with per-function summaries to a fixed point) of the '
-             'model builders against their table and point parameters; dominance of the interpolation call by a sort '
-             'by Mach; abstract evaluation of the per-entry scaling to a rational identity; the interpolation search by '
-             'inductive invariants in a linear-constraint domain (Houdini inference, Fourier-Motzkin refutation) with '
-             'counterexamples from a finite ordering family')
+TECHNIQUE = ('origin/effect analysis (flow-sensitive may-alias with per-function summaries to a fixed point) '
+             'of the model builders against their table and point parameters; abstract evaluation of '
+             'DragModelMultiBC as a whole (loops over the known lists unrolled) on a finite family of tables '
+             'and point sets, the effective BC compared with the clamped piecewise-linear interpolation '
+             'computed from the definition; the interpolation search by inductive invariants in a linear-'
+             'constraint domain (Houdini inference, Fourier-Motzkin refutation) with counterexamples from a '
+             'finite ordering family')
 DECIDED = [
-    'R1 DragModel.__init__, DragModelMultiBC and make_data_points have no effect on the drag table or the BC points '
-    'passed in (no field store, no in-place sort/append) - display-unit rewrites of quantity arguments excepted',
-    'R2 the interpolation consumes the points sorted by Mach (sort dominates the call, both coordinate lists come '
-    'from the sorted sequence); every table entry becomes CD / (interp(BC)/bc) with the same bc that becomes the '
-    'model BC, i.e. standard CD * model BC / model CD = interp(BC)',
-    'R3 linear_interpolation, for every list length and every query: each value appended is, under the facts that hold '
-    'where it is appended (branch conditions plus inductive loop invariants), yp[0] at or below the first abscissa, '
-    'yp[-1] at or above the last, a node\'s ordinate at the node, or the straight line through two adjacent nodes that '
-    'bracket the query; every index is in range - proved by Houdini-inferred invariants and Fourier-Motzkin refutation '
-    '(engine F); an unproved obligation becomes a violation only with a concrete counterexample from the finite '
-    'input family (which also exposes a search that never terminates or skips a query)',
+    'R1 DragModel.__init__, DragModelMultiBC and make_data_points have no effect on the drag table or the BC '
+    'points passed in (no field store, no in-place sort/append) - display-unit rewrites of quantity arguments'
+    ' excepted',
+    'R2 DragModelMultiBC evaluated as a whole on a table of four Mach nodes with symbolic drag values and '
+    'nine sets of one, two and three BC points with symbolic BCs - in ascending, descending and mixed order, '
+    'reaching beyond either end of the table, with and without bullet weight / diameter: at every entry of '
+    'every model standard CD x model BC / model CD is the clamped piecewise-linear interpolation of the given'
+    ' BCs (computed from the definition); the result does not depend on the order given; a single point gives'
+    ' the plain single-BC model; the model BC is the sectional density when weight and diameter are given and'
+    ' 1 otherwise',
+    'R3 linear_interpolation, for every list length and every query: each value appended is, under the facts '
+    'that hold where it is appended (branch conditions plus inductive loop invariants), yp[0] at or below the'
+    " first abscissa, yp[-1] at or above the last, a node's ordinate at the node, or the straight line "
+    'through two adjacent nodes that bracket the query; every index is in range - proved by Houdini-inferred '
+    'invariants and Fourier-Motzkin refutation (engine F); an unproved obligation becomes a violation only '
+    'with a concrete counterexample from the finite input family (which also exposes a search that never '
+    'terminates or skips a query)',
 ]
-NOT_DECIDED = ['termination of the search for lists longer than the finite family; the single-BC equivalence as numbers']
+NOT_DECIDED = [
+    'termination of the search for lists longer than the finite family; the effective-BC identity for tables '
+    "and point sets outside the finite family of R2 (R3's proof covers the interpolation routine for every "
+    'length; the wiring around it is evaluated on the family)',
+]
 
 PROTECTED = {'drag_table', 'bc_points'}
 ALLOWED_FIELDS = {'_defined_units'}
